@@ -3,7 +3,7 @@
     [vm_compute] on a concrete witness) and followed by [Print Assumptions].
     Models: Model19.v (gates, entity expansion), Uri19.v (URI resolution); Spec: Spec19.v, Uri19.rfc_resolve. *)
 From XV Require Import Base.XDefs C19.Uri19 C19.Spec19 C19.Model19 C19.Proofs19a C19.Proofs19g C19.Proofs19b
-  C19.Proofs19c C19.Proofs19d C19.Proofs19e C19.Proofs19f C19.ProofsUri19 Gen.GenGates C19.Gates19.
+  C19.Proofs19c C19.Proofs19d C19.Proofs19e C19.Proofs19f C19.Proofs19h C19.ProofsUri19 Gen.GenGates C19.Gates19 Gen.GenOpens C19.Opens19.
 Local Open Scope N_scope.
 
 (** ** T19_no_fetch (full on the model): for every configuration, resolver, file system and document, every
@@ -123,10 +123,19 @@ Example T19_limit_dtd_side_repaired :
                              c_limit := Some 2%nat; c_countDtd := true |} None nofs (pe_doc 6))) = Some FLimit.
 Proof. vm_compute. reflexivity. Qed.
 
-(** ** documents within the limit are unaffected -- PARTIAL: checked by computation on the entity-table families
-    (flat, chain, binary tree; N expansions with limit N: identical run; limit N-1: rejected); the universal
-    statement [cntE (run None) <= L -> run (Some L) = run None] is not proved (it is exercised by the
-    correspondence: the implementation's answer with limit >= N is compared with its answer without limit). *)
+(** ** T19_limit_unaffected (full): documents within the limit are unaffected.  For EVERY configuration, resolver,
+    file system and document: if the parse without a SecurityManager pushes at most L counted entity readers
+    (content and attribute-value expansions; with the C19-F1 repair also the DTD scanner's), then the parse with
+    limit L is the same run -- same events in the same order, same entity tables, same final state, hence no
+    EntityExpansionLimitExceeded.  (Proofs19h.v: the counter never decreases + a two-run simulation through the
+    nested fixpoints.)  Together with T19_limit: the limit changes a parse only by ending it at the (L+1)-th push. *)
+Theorem T19_limit_unaffected : forall c rs fs L x,
+  (cntPc (c_countDtd c) (trace (run (with_limit c None) rs fs x)) <= L)%nat ->
+  run (with_limit c (Some L)) rs fs x = run (with_limit c None) rs fs x.
+Proof. exact limit_unaffected_trace. Qed.
+Print Assumptions T19_limit_unaffected.
+(** non-vacuity and tightness on entity-table families (flat, chain, binary tree): N expansions with limit N:
+    identical run; limit N-1: rejected with EntityExpansionLimitExceeded *)
 Definition e0 : str := [101; 48].
 Definition flat_doc (n : nat) : doc := mkdoc [DGE e0 (EInt [PTxt])] [] (repeat (PRef e0) n).
 Definition chain_doc (n : nat) : doc :=
@@ -144,12 +153,11 @@ Definition unaffected_at (x : doc) (needed : nat) : bool :=
   | O => true
   | S m => match first_fatal (trace (run (cfgIG (Some m)) None nofs x)) with Some FLimit => true | _ => false end
   end.
-Example T19_limit_unaffected_partial :
+Example T19_limit_unaffected_examples :
   forallb (fun n => unaffected_at (flat_doc n) n) (seq 0 12) &&
   forallb (fun n => unaffected_at (chain_doc n) (S n)) (seq 0 8) &&
   forallb (fun n => unaffected_at (tree_doc n) (Nat.pow 2 (S n) - 1)) (seq 0 5) = true.
 Proof. vm_compute. reflexivity. Qed.
-Print Assumptions T19_limit_unaffected_partial.
 
 (** the per-parse theorem is about scanReset: a parser whose scanReset does not refresh the limit / zero the counter
     (the same history run with [reset := id]) rejects an in-limit second document and accepts an over-limit one
@@ -304,3 +312,18 @@ Theorem T19_gate_inventory :
   forallb (fun e => match assoc (fst e) gate_sites with Some _ => true | None => false end) gate_table = true.
 Proof. exact (conj gate_inventory_classified gate_inventory_complete). Qed.
 Print Assumptions T19_gate_inventory.
+
+(** ** T-open obligation (tie to the source, regenerated on every run): the WHOLE source tree (800 files, all
+    platforms) is searched for the primitives that can open a file, socket or URL (makeStream, BinFileInputStream,
+    makeNewStream / makeNew, net-accessor streams, XMLPlatformUtils::openFile*, the file managers' fopen /
+    CreateFile, socket / connect / curl) and for constructions of file / URL / stdin input sources; every occurrence
+    is classified in the committed table Opens19.open_table with its exact count, none has vanished, and every file
+    that constructs such a source is one whose call sites T19_gate_inventory classifies with their guards. *)
+Theorem T19_open_inventory :
+  forallb open_site_ok open_sites = true /\ forallb open_entry_present open_table = true /\
+  forallb (fun s => match is_source_key (fst s) with
+                    | Some f => existsb (String.eqb f) gated_files
+                    | None => true
+                    end) open_sites = true.
+Proof. exact (conj open_inventory_classified (conj open_inventory_complete open_sources_gated)). Qed.
+Print Assumptions T19_open_inventory.
